@@ -257,7 +257,7 @@ run_deflate(struct scn *s)
         z->avail_out = 0;
         z->level = s->level;
         z->gzip_flag = s->wrap;
-        z->hist_bits = s->hist_bits;
+        z->hist_bits = (s->prefill & 512) ? 0 : s->hist_bits; /* 512: the window size is chosen after the dictionary calls (only the level has to be set before them) */
         if (s->lbuf != 5 && lsz > 0) {
                 z->level_buf = vh_place(&lr, lsz, VH_END, s->lbuf >= 7 ? (s->lbuf == 9 ? 2 : s->lbuf == 10 ? 3 : 1) : 0);
                 prefill(z->level_buf, lsz, s->prefill & 15);
@@ -306,6 +306,8 @@ run_deflate(struct scn *s)
                 r2 = isal_deflate_reset_dict(z, dstruct);
                 fprintf(out, "{\"e\":\"SetDict\",\"scn\":%d,\"ret\":%d,\"ret2\":%d}\n", s->id, r1, r2);
         }
+        if (s->prefill & 512)
+                z->hist_bits = s->hist_bits;
         for (i = 0; i < s->cap; i++) {
                 struct call c;
                 uint32_t ai0, ti0, to0, sv_level, sv_lbs;
@@ -396,8 +398,11 @@ run_deflate(struct scn *s)
                                 z->total_out - to0, (long) (z->next_in - ni0), (long) (z->next_out - no0),
                                 zstate_name(z->internal_state.state), zstate_name(st0), z->internal_state.has_hist,
                                 z->internal_state.b_bytes_valid, z->internal_state.b_bytes_processed, canary != 0x7fffffff,
-                                /* try to (re)install the same table: must be refused while a block is open */
-                                ht && ret == COMP_OK && s->api == API_DEFLATE ? isal_deflate_set_hufftables(z, ht, IGZIP_HUFFTABLE_CUSTOM) : 99,
+                                /* try to install a table (the static one and the custom one in turn, so that an installation accepted
+                                 * with a block open changes the code in mid-block): must be refused while a block is open */
+                                ht && ret == COMP_OK && s->api == API_DEFLATE
+                                        ? ((i & 1) ? isal_deflate_set_hufftables(z, ht, IGZIP_HUFFTABLE_CUSTOM) : isal_deflate_set_hufftables(z, NULL, IGZIP_HUFFTABLE_STATIC))
+                                        : 99,
                                 zstate_name(st0 >= ZSTATE_TMP_NEW_HDR ? st0 - (ZSTATE_TMP_NEW_HDR - ZSTATE_NEW_HDR) : st0), st0 >= ZSTATE_TMP_NEW_HDR,
                                 zstate_name((int) z->internal_state.state >= ZSTATE_TMP_NEW_HDR ? (int) z->internal_state.state - (ZSTATE_TMP_NEW_HDR - ZSTATE_NEW_HDR) : (int) z->internal_state.state),
                                 (int) z->internal_state.state >= ZSTATE_TMP_NEW_HDR, badkind);
